@@ -477,7 +477,7 @@ func runScenario(sc Scenario) (res runResult) {
 			// recognised defect outside C13's statement (node database, C06/C07 territory): after
 			// badger discards a losing candidate, a node that candidate re-created with the same
 			// hash as a node of the finalized root is gone, and the finalized root is unreadable
-			if strings.Contains(what, "mkvs: node not found in node db") && sc.Backend == "badger" {
+			if strings.Contains(what, "mkvs: node not found in node db") && (sc.Backend == "badger" || sc.Backend2 == "badger") {
 				res.findings = append(res.findings, finding{keyDiscardSharedNode, what})
 				return
 			}
@@ -612,6 +612,8 @@ func runScenario(sc Scenario) (res runResult) {
 			}
 			if sc.Backend == "pathbadger" && sameValue && strings.Contains(q.err.Error(), "mkvs/pathbadger: failed to fetch node") {
 				res.findings = append(res.findings, finding{keyEmbeddedLeaf, what})
+			} else if sc.Backend == "badger" && strings.Contains(q.err.Error(), "mkvs: node not found in node db") {
+				res.findings = append(res.findings, finding{keyDiscardSharedNode, what})
 			} else {
 				viol("%s", what)
 			}
@@ -637,6 +639,11 @@ func runScenario(sc Scenario) (res runResult) {
 		})
 		cls := applyClass(err)
 		has := ndb2.HasRoot(dst)
+		if err != nil && !a.otherSrc && sc.Backend2 == "badger" && strings.Contains(err.Error(), "mkvs: node not found in node db") {
+			// the second database lost a node of a finalized root (node database defect, see
+			// keyDiscardSharedNode): nothing about C13 can be judged on it any more
+			panic(err)
+		}
 		res.hist["result:"+a.kind+":"+cls]++
 		if cls == "AOther" {
 			res.hist["other-error:"+a.kind+": "+err.Error()]++
@@ -855,8 +862,8 @@ func runScenario(sc Scenario) (res runResult) {
 		finalizedHash := map[hash.Hash]bool{}
 		for i, ok := firstOf[cands[pick].end.hash]; ok && i >= 0; {
 			finalizedHash[cands[i].end.hash] = true
-			if parentOf[i] < 0 {
-				break
+			if parentOf[i] < 0 || cands[parentOf[i]].end.hash.IsEmpty() {
+				break // no link is stored from an empty old root (badger.go:1082)
 			}
 			i, ok = firstOf[cands[parentOf[i]].end.hash]
 		}
@@ -938,7 +945,11 @@ func runScenario(sc Scenario) (res runResult) {
 						viol("pair %d+%d (%s): the two-hop write log applied to the start contents does not give the end contents", first.idx, p.idx, phase)
 					}
 				case "error":
-					viol("pair %d+%d (%s): two-hop write log: %v", first.idx, p.idx, phase, q.err)
+					if strings.Contains(q.err.Error(), "mkvs: node not found in node db") {
+						res.findings = append(res.findings, finding{keyDiscardSharedNode, fmt.Sprintf("pair %d+%d (%s): two-hop write log: %v", first.idx, p.idx, phase, q.err)})
+					} else {
+						viol("pair %d+%d (%s): two-hop write log: %v", first.idx, p.idx, phase, q.err)
+					}
 				}
 			}
 		}
